@@ -1,4 +1,4 @@
 From Coq Require Import ExtrOcamlBasic.
 From Slock Require Import Engine.Types Engine.Queues Engine.Timers Engine.Engine Engine.Engine2 Conn.Conn.
 Extraction Language OCaml.
-Extraction "model.ml" cstep init_cstate mk_cfg conn_fields usable wills_of getN wq_items getl aget make_cmd.
+Extraction "model.ml" cstep init_cstate mk_cfg mk_xcmd modelled conn_of conn_fields usable wills_of getN wq_items getl aget make_cmd.
